@@ -324,6 +324,10 @@ class ModelMixin3:
         # copy
         if name in ('copy.deepcopy', 'copy.copy'):
             v = args[0] if args else NoneV()
+            memo = kwargs.get('memo', args[1] if len(args) > 1 else None)
+            if memo is not None and not isinstance(memo, NoneV):
+                # a caller-supplied memo that outlives the call makes repeated copies of one element the *same* object
+                self.hook('copy-memo', st, node, src=v, memo=memo)
             if isinstance(v, Ref) and v.kind == 'elem':
                 return self.copy_elem(v, st, node, deep=(name == 'copy.deepcopy'))
             return [(v, st)]
